@@ -25,6 +25,10 @@ class Annulus(Sketch):
         inner_radius: float,
         n_segments: int = 8,
     ):
+        if inner_radius <= 0:
+            # (a negative radius would put the inner points on the other side of the axis)
+            raise AnnulusCreationError("Inner ring radius must be positive!", f"Inner radius: {inner_radius}")
+
         center_point = np.asarray(center_point)
         normal = f.unit_vector(np.asarray(normal))
         outer_radius_point = np.asarray(outer_radius_point)
